@@ -859,7 +859,7 @@ def seq_bytes(rng, key: str, variant: str) -> Tuple[Optional[bytes], bool]:
     """bytes served for inventory `key` in the given variant; second component: the entries must load"""
     url, entries = SEQ_INV[key]
     lines = [f"{n} {t} -1 {l} -" for n, t, l in entries]
-    if variant == "mixed":
+    if variant == "mixed" and rng is not None:
         for _ in range(rng.randint(1, 3)):
             lines.insert(rng.randint(0, len(lines)), rng.choice(SEQ_BAD))
     data = SEQ_HEADER + zlib.compress(("\n".join(lines) + "\n").encode("utf-8"))
@@ -949,11 +949,465 @@ def stream_sequences(ctx: Ctx) -> None:
     compare(ctx, "sequences", reqs, impls, pay)
 
 
+# ------------------------------------------------------------------ stream (0): corpus of past failures (runs first)
+
+def find_newline_hash_inventory() -> bytes:
+    """deterministic: a valid inventory whose zlib body contains the byte pair 0x0A 0x23 (seeded C17-r2-2)"""
+    import hashlib
+    for n in range(1, 200000):
+        lines = [f"pkg.{hashlib.md5(f'{n}.{i}'.encode()).hexdigest()[:10]} py:function -1 pkg.html#$ -" for i in range(40)]
+        body = zlib.compress(("\n".join(lines) + "\n").encode())
+        if b"\n#" in body:
+            return SEQ_HEADER + body
+    return SEQ_HEADER + zlib.compress(b"")
+
+
+def stream_corpus(ctx: Ctx) -> None:
+    """every recorded finding's input and every seeded change's needed shape, deterministic"""
+    reqs: List[str] = []
+    impls: List[str] = []
+    pay: List[Any] = []
+
+    def session_case(tag: str, steps, must_resolve: Dict[str, str]) -> None:
+        req, impl, excs, inv, answers = run_steps(steps)
+        label = {"corpus": tag, "steps": [[st[0], st[1]] + ([None if st[2] is None else st[2].hex()] if st[0] == "U" else []) for st in steps]}
+        if req is not None:
+            reqs.append(req); impls.append(impl); pay.append(label)
+        ctx.case("corpus " + tag, True)
+        ctx.count("corpus:" + tag)
+        if excs:
+            lines: List[str] = []
+            for st in steps:
+                if st[0] == "U" and st[2]:
+                    try:
+                        lines += zlib.decompress(strip_comments_py(st[2])).decode("utf-8").splitlines()
+                    except Exception:
+                        pass
+            sig = SIG_PRIO_LAST if excs[0] == "IndexError" and any(prio_is_last(l) for l in lines) else "update-raises:" + excs[0]
+            ctx.fail(sig, label, f"corpus {tag}: a call on the reader raised {excs[0]}")
+        for n, want in must_resolve.items():
+            got = inv.getLink(n)
+            if got != want:
+                ctx.fail("good-line-lost" if got is None else "lookup-not-current", label, f"corpus {tag}: getLink({n!r}) = {got!r}, expected {want!r}")
+                break
+
+    hdr = SEQ_HEADER
+    # finding f721ca9: a priority-last line next to a good line
+    session_case("prio-last", [("U", URL, hdr + zlib.compress(b"pkg py:module -1 index.html -\na py:x 1\n")), ("Q", "pkg")],
+                 {"pkg": BASE + "/index.html"})
+    # seeded C17-1: download truncated inside the header
+    for i, d in enumerate([b"# Sphinx inventory version 2\n# Proj", b"#", b"# a\n#"]):
+        session_case(f"header-truncated-{i}", [("U", URL, d), ("Q", "pkg")], {})
+    # seeded C17-r2-1: malformed lines holding '%'
+    bad = ['shop.cart.caf%C3%A9 py:function', '<td width="50%">404 Not Found</td>', 'discount 100%', 'shop.cart.%s py:function -1']
+    good = ["shop py:module -1 index.html -", "shop.cart py:module -1 shop.cart.html -", "shop.cart.Cart.add py:method -1 shop.cart.Cart.html#add -"]
+    mixed = [x for pair in zip(good, bad) for x in pair] + [bad[3]]
+    session_case("percent-lines", [("U", URL, hdr + zlib.compress(("\n".join(mixed) + "\n").encode()))],
+                 {"shop": BASE + "/index.html", "shop.cart.Cart.add": BASE + "/shop.cart.Cart.html#add"})
+    # seeded C17-r2-2: compressed body containing "\n#"
+    nh = find_newline_hash_inventory()
+    ctx.count("corpus:newline-hash-found" if b"\n#" in nh[len(hdr):] else "corpus:newline-hash-NOT-found")
+    first = (zlib.decompress(nh[len(hdr):]).decode().splitlines() or ["none py:x 1 none -"])[0].split(" ")
+    session_case("newline-hash-in-body", [("U", URL, nh), ("Q", first[0])],
+                 {first[0]: BASE + "/" + (first[3][:-1] + first[0] if first[3].endswith("$") else first[3])})
+    # seeded C17-r2-3: lookup, failed load, lookup, load, lookup
+    b1 = seq_bytes(None, "B1", "valid")[0]
+    session_case("stale-lookup", [("Q", "b.mod.K"), ("U", SEQ_INV["B1"][0], b1[:len(b1) // 2]), ("Q", "b.mod.K"),
+                                  ("U", SEQ_INV["B1"][0], b1), ("Q", "b.mod.K"),
+                                  ("U", SEQ_INV["B2"][0], seq_bytes(None, "B2", "valid")[0]), ("Q", "b.mod.K")],
+                 {"b.mod.K": "http://b/v2/b.mod.K.html#b.mod.K", "b.mod.K.meth": "http://b/b.mod.K.html#meth"})
+    compare(ctx, "corpus", reqs, impls, pay)
+    # seeded C17-2: a project with non-ASCII identifiers, through the whole writer/reader/Sphinx path
+    reqs, impls, pay = [], [], []
+    mods = [("class Größe:\n    def café(self):\n        pass\n    naïve = 1\ndef café():\n    pass\n", "shöp", None, False)]
+    system = build_system(mods, [])
+    check_project(ctx, system, {"corpus": "non-ascii-identifiers", "modules": [list(m) for m in mods], "hidden": []}, reqs, impls, pay)
+    ctx.count("corpus:non-ascii-project")
+    compare(ctx, "corpus", reqs, impls, pay)
+
+
+# ------------------------------------------------------------------ stream (e): the cache in front of the reader
+
+MAXAGE_ALPHA = ["0", "1", "9", "-", "+", "_", " ", "s", "m", "h", "d", "w", "x"]
+MAXAGE_EDGE = ["4294967294s", "4294967295s", "4294967296m", "4294967294h", "999999999d", "1000000000d", "142857141w", "142857142w",
+               "142857143w", "0s", "-1s", "1s", "+5m", " 7 d", "1_0h", "1__0h", "9" * 4300 + "s", "9" * 4301 + "s", "1.5h", "1e3s",
+               "1W", "1S", "\u0661d", "1w ", "w1", "", "s", "1", "12", "1ss", "1 s", "\t2\tm", "0x1s", "1\ns"]
+
+
+def impl_maxage(a: str) -> str:
+    from pydoctor import sphinx
+    try:
+        d = sphinx.parseMaxAge(a)
+    except Exception as e:
+        return type(e).__name__
+    (u, n), = d.items()
+    return f"ok {enc(u)} {n}"
+
+
+class FakeResponse:
+    def __init__(self, content: bytes) -> None:
+        self.content = content
+
+
+class Boom(BaseException):
+    """stands for KeyboardInterrupt / SystemExit"""
+
+
+class FakeSession:
+    def __init__(self, plan: Dict[str, Any]) -> None:
+        self.plan = plan
+        self.closed = False
+
+    def get(self, url: str) -> FakeResponse:
+        what = self.plan[url]
+        if isinstance(what, bytes):
+            return FakeResponse(what)
+        raise what
+
+    def close(self) -> None:
+        self.closed = True
+
+
+def stream_cache(ctx: Ctx) -> None:
+    import logging
+    import os
+    import shutil
+    import tempfile
+    import requests
+    from pydoctor import sphinx, model
+    reqs: List[str] = []
+    impls: List[str] = []
+    pay: List[Any] = []
+    # parseMaxAge: every string of <= 4 characters over a 13-character alphabet, plus boundary values
+    cases = list(MAXAGE_EDGE)
+    for n in range(1, 5 if ctx.quick else 6):
+        for t in itertools.product(MAXAGE_ALPHA, repeat=n):
+            cases.append("".join(t))
+    for a in cases:
+        out = impl_maxage(a)
+        if int_model_ok(a):
+            reqs.append("inventory maxage " + enc(a)); impls.append(out); pay.append({"maxage": a})
+        else:
+            ctx.count("maxage:outside-int-model")
+        ctx.case("maxage " + enc(a), out.startswith("ok"),
+                 {"maxage": a, "impl": out} if out.startswith("ok") and len(a) > 6 and ctx.dist.get("maxage:sampled", 0) < 1 and not ctx.count("maxage:sampled") else None)
+        ctx.count("maxage:" + out.split(" ")[0])
+        if not out.startswith("ok") and out != "InvalidMaxAge":
+            ctx.fail("parseMaxAge-raises:" + out, {"maxage": a}, f"parseMaxAge({a!r}) raised {out}, documented to raise InvalidMaxAge only")
+    # prepareCache: option combinations x cache directory present/missing
+    tmp = tempfile.mkdtemp(prefix="c17cache")
+    try:
+        for clear, enable, exists in itertools.product([False, True], repeat=3):
+            for age in ["1w", "5x", "0s", "12h", ""]:
+                path = tmp + "/cache"
+                shutil.rmtree(path, ignore_errors=True)
+                if exists:
+                    os.makedirs(path)
+                try:
+                    cache = sphinx.prepareCache(clearCache=clear, enableCache=enable, cachePath=path, maxAge=age,
+                                                sessionFactory=requests.Session)
+                except Exception as e:
+                    out = "OSError" if isinstance(e, OSError) else type(e).__name__
+                    if isinstance(e, OSError):
+                        ctx.count("preparecache:observation:clear-missing-dir-aborts")
+                else:
+                    heur = getattr(cache._session.adapters.get("http://"), "heuristic", None)
+                    out = "plain" if heur is None else "caching %d" % int(heur.delta.total_seconds())
+                    cache.close()
+                req = f"inventory preparecache {int(clear)} {int(enable)} {int((not clear) or exists)} {enc(age)}"
+                reqs.append(req); impls.append(out); pay.append({"preparecache": [clear, enable, exists, age]})
+                ctx.case(req, clear or enable)
+                ctx.count("preparecache:" + out.split(" ")[0])
+    finally:
+        shutil.rmtree(tmp, ignore_errors=True)
+    # IntersphinxCache.get + System.fetchIntersphinxInventories with a session that fails in assorted ways
+    good = {k: seq_bytes(None, k, "valid")[0] for k in ("A", "B1", "C")}
+    key_of = {SEQ_INV[k][0]: k for k in good}
+    failures = [requests.exceptions.ConnectionError("refused"), requests.exceptions.Timeout("slow"), requests.exceptions.InvalidSchema("x"),
+                ValueError("bad url"), KeyError("k"), OSError("net down"), RuntimeError("?"), UnicodeError("idna")]
+    logging.disable(logging.CRITICAL)   # IntersphinxCache logs tracebacks through `logging`
+    try:
+        for _ in range(150 if ctx.quick else 3000):
+            plan: Dict[str, Any] = {}
+            urls: List[str] = []
+            base_exc = False
+            for key in ctx.rng.sample(["A", "B1", "C"], ctx.rng.randint(1, 3)):
+                url = SEQ_INV[key][0]
+                r = ctx.rng.random()
+                if r < 0.5:
+                    plan[url] = good[key]
+                elif r < 0.6:
+                    plan[url] = good[key][:ctx.rng.randrange(len(good[key]))]
+                elif r < 0.95:
+                    plan[url] = ctx.rng.choice(failures)
+                else:
+                    plan[url] = Boom()
+                    base_exc = True
+                urls.append(url)
+            if ctx.rng.random() < 0.2:
+                urls.insert(ctx.rng.randint(0, len(urls)), "nourl")
+                plan["nourl"] = b"zz"
+            system = model.System()
+            log = Log()
+            system.intersphinx = sphinx.SphinxInventory(logger=log)
+            system.options.intersphinx = urls
+            cache = sphinx.IntersphinxCache(FakeSession(plan))  # type: ignore
+            spy = ZSpy()
+            real_zlib = sphinx.zlib
+            sphinx.zlib = spy  # type: ignore
+            exc = None
+            try:
+                system.fetchIntersphinxInventories(cache)
+            except BaseException as e:
+                exc = type(e).__name__
+            finally:
+                sphinx.zlib = real_zlib  # type: ignore
+            # request: per URL what the session did and what zlib/decoding did
+            toks = ["inventory fetch"]
+            zi = 0
+            stopped = False
+            for url in urls:
+                w = plan[url]
+                sr, z = "E", "Z"
+                if not stopped and isinstance(w, bytes):
+                    sr = "C:" + hexb(w)
+                    if "/" in url and w and zi < len(spy.calls):
+                        z = spy.calls[zi][1]
+                        zi += 1
+                elif not stopped and isinstance(w, Boom):
+                    sr = "B"
+                    stopped = True
+                toks.append(f"F {enc(url)} {sr} {z}")
+            canon = []
+            for section, msg, thresh in log.msgs:
+                matched = "other:" + enc(msg)
+                for url in urls:
+                    base = url.rsplit("/", 1)[0] if "/" in url else ""
+                    c = canon_log([(section, msg, thresh)], base, url)
+                    if not c.startswith("other:"):
+                        matched = c
+                        break
+                canon.append(matched)
+            impl = f"{'ok' if exc is None else ('BaseException' if exc == 'Boom' else exc)} | {canon_links(system.intersphinx._links)} | {' '.join(canon) or '-'}"
+            req = " ".join(toks)
+            label = {"fetch": [[u, (plan[u].hex() if isinstance(plan[u], bytes) else type(plan[u]).__name__)] for u in urls]}
+            if "X" not in [z for _, z in spy.calls]:
+                reqs.append(req); impls.append(impl); pay.append(label)
+            ctx.case(req, any(not isinstance(plan[u], bytes) for u in urls))
+            ctx.count("fetch:urls=%d" % len(urls))
+            for u in urls:
+                ctx.count("fetch:" + ("content" if isinstance(plan[u], bytes) else "BaseException" if isinstance(plan[u], Boom) else "Exception"))
+            # direct oracle: a failing download never aborts the fetch loop; the inventories that did load still resolve
+            if exc is not None and not base_exc:
+                ctx.fail("fetch-raises:" + exc, label, f"fetchIntersphinxInventories raised {exc} although every download failure was an Exception")
+            if exc is None:
+                loaded = [u for u in urls if u in key_of and plan[u] == good[key_of[u]]]
+                for u in loaded:
+                    bad = False
+                    for n, _, l in SEQ_INV[key_of[u]][1]:
+                        cands = set()
+                        for u2 in loaded:
+                            for n2, _, l2 in SEQ_INV[key_of[u2]][1]:
+                                if n2 == n:
+                                    cands.add(u2.rsplit("/", 1)[0] + "/" + (l2[:-1] + n if l2.endswith("$") else l2))
+                        got = system.intersphinx.getLink(n)
+                        if got not in cands:
+                            ctx.fail("fetch-good-inventory-lost", label, f"getLink({n!r}) = {got!r} after the fetch loop, expected one of {sorted(cands)}")
+                            bad = True
+                            break
+                    if bad:
+                        break
+    finally:
+        logging.disable(logging.NOTSET)
+    compare(ctx, "cache", reqs, impls, pay)
+
+
+# ------------------------------------------------------------------ stream (f): the linker's lookup order, getLink shapes, kinds
+
+XREF_SRC = {
+    "m": ("import ext\nfrom ext import thing as alias\nfrom ext.sub import Other\nimport other_pkg.deep as dp\n"
+          "class Local:\n    \"\"\"doc\"\"\"\n    def meth(self):\n        \"\"\"doc\"\"\"\n    class Inner:\n        pass\n"
+          "def f():\n    \"\"\"doc\"\"\"\nvalue = 1\n"),
+    "n": "from m import Local as Renamed\nclass Uncle:\n    pass\n",
+}
+XREF_IDENTIFIERS = ["alias", "ext.thing", "Other", "ext.sub.Other", "m.Local", "Local", "Local.meth", "meth", "unknown.name", "ext",
+                    "f", "m.f", "dp.X", "other_pkg.deep.X", "Renamed", "Uncle", "n.Uncle", "Inner", "value", "alias.attr", "$"]
+XREF_KEYS = ["ext.thing", "alias", "ext.sub.Other", "Other", "m.Local", "Local", "ext", "other_pkg.deep.X", "dp.X", "unknown.name",
+             "Uncle", "meth", "m.Local.meth", "ext.thing.attr", "alias.attr", "f", "$"]
+
+
+def stream_linker(ctx: Ctx) -> None:
+    from pydoctor import model, sphinx
+    reqs: List[str] = []
+    impls: List[str] = []
+    pay: List[Any] = []
+    system = model.System()
+    b = system.systemBuilder(system)
+    for name, src in XREF_SRC.items():
+        b.addModuleString(src, name)
+    b.buildModules()
+    contexts = [system.allobjects[n] for n in ("m", "m.Local", "m.Local.meth", "m.f", "n", "n.Uncle")]
+
+    def outcome(fn) -> str:
+        try:
+            r = fn()
+        except LookupError:
+            return "unresolved"
+        except Exception as e:
+            return "EXC:" + type(e).__name__
+        if r is None:
+            return "unresolved"
+        if isinstance(r, str):
+            return "external " + enc(r)
+        return "internal " + enc(r.fullName())
+
+    def set_links(links: Dict[str, Tuple[str, str]]) -> None:
+        system.intersphinx = sphinx.SphinxInventory(logger=Log())
+        system.intersphinx._links.update(links)
+
+    nrounds = 40 if ctx.quick else 1000
+    for _ in range(nrounds):
+        keys = ctx.rng.sample(XREF_KEYS, ctx.rng.randint(0, 6))
+        links = {k: ("http://x/" + ctx.rng.choice(["a", "b"]), ctx.rng.choice([k + ".html", "api.html#$", "", "$", "p/" + k])) for k in keys}
+        ltoks = " ".join(f"{enc(k)}={enc(bb)}={enc(l)}" for k, (bb, l) in links.items())
+        for obj in contexts:
+            linker = obj.docstring_linker
+            linker.reporting_obj = None          # do not accumulate warnings on the shared system
+            for ident in XREF_IDENTIFIERS:
+                # parameters of the model, observed on the real objects
+                objfor = system.objForFullName(ident)
+                full_id = obj.expandName(ident)
+                set_links({})
+                ctxres = outcome(lambda: linker._resolve_identifier_xref(ident, 0)) if objfor is None else "unresolved"
+                resolved = obj.resolveName(ident)
+                set_links(links)
+                got = outcome(lambda: linker._resolve_identifier_xref(ident, 0))
+                ctx_tok = "N" if not ctxres.startswith("internal ") else ctxres.split(" ")[1]
+                req = f"inventory xref {'N' if objfor is None else enc(objfor.fullName())} {enc(full_id)} {ctx_tok} {enc(ident)} {ltoks}".rstrip()
+                label = {"xref": ident, "context": obj.fullName(), "links": {k: list(v) for k, v in links.items()}}
+                reqs.append(req); impls.append(got); pay.append(label)
+                nontriv = objfor is None and (full_id in links or ident in links)
+                ctx.case(req, nontriv, {"xref": ident, "in": obj.fullName(), "links": label["links"], "impl": got}
+                         if nontriv and got.startswith("external") and ctx.dist.get("xref:sampled", 0) < 1 and not ctx.count("xref:sampled") else None)
+                ctx.count("xref:" + got.split(" ")[0])
+                # direct oracle (from the property): a name the loaded inventory resolves, and that is no object of this
+                # system, links to what getLink says for it; an object of this system is never redirected
+                if got.startswith("EXC:"):
+                    ctx.fail("xref-raises:" + got[4:], label, f"_resolve_identifier_xref({ident!r}) raised {got[4:]}")
+                elif objfor is not None and got != "internal " + enc(objfor.fullName()):
+                    ctx.fail("xref-internal-redirected", label, f"{ident!r} is the full name of {objfor.fullName()} but resolves to {got}")
+                elif objfor is None:
+                    want = system.intersphinx.getLink(full_id) or system.intersphinx.getLink(ident)
+                    if want and got != "external " + enc(want):
+                        ctx.fail("xref-inventory-ignored", label, f"the inventory resolves {ident!r} ({full_id!r}) to {want!r} but the linker gave {got}")
+
+                # link_to (annotations): resolveName first, then intersphinx by the expanded name only
+                def link_to_target():
+                    tag = linker.link_to(ident, "L")
+                    if getattr(tag, "tagName", "") != "a":
+                        return None
+                    if "intersphinx-link" in str(tag.attributes.get("class", "")):
+                        return tag.attributes.get("href")
+                    return resolved
+                got2 = outcome(link_to_target)
+                req2 = f"inventory linkto {'N' if resolved is None else enc(resolved.fullName())} {enc(full_id)} {enc(ident)} {ltoks}".rstrip()
+                reqs.append(req2); impls.append(got2); pay.append({"linkto": ident, "context": obj.fullName(), "links": label["links"]})
+                ctx.case(req2, resolved is None and full_id in links)
+                ctx.count("linkto:" + got2.split(" ")[0])
+    # getLink for every shape of location: all locations of <= 4 characters over {a, $, /, #} under three names
+    for name in ["n", "a.b", "x$"]:
+        for k in range(0, 5):
+            for loc_t in itertools.product("a$/#", repeat=k):
+                loc = "".join(loc_t)
+                data = SEQ_HEADER + zlib.compress(f"{name} py:x 1 {loc} -\n".encode())
+                req, impl, excs, inv, answers = run_steps([("U", URL, data), ("Q", name)])
+                reqs.append(req); impls.append(impl); pay.append({"getlink": [name, loc]})
+                ctx.case(req, loc.endswith("$"))
+                ctx.count("getlink:" + ("empty" if not loc else "dollar" if loc.endswith("$") else "plain"))
+                want = None if not loc else BASE + "/" + (loc[:-1] + name if loc.endswith("$") else loc)
+                if excs or answers[0] != want:
+                    ctx.fail("getlink-shape", {"getlink": [name, loc]}, f"getLink({name!r}) with location {loc!r} = {answers[0]!r}, expected {want!r}")
+    compare(ctx, "linker", reqs, impls, pay)
+
+
+KINDS_SRC = '''
+import zope.interface, zope.schema, attr
+from typing import TypeVar, Union
+CONST = 1
+T = TypeVar('T')
+Alias = Union[int, str]
+var = []
+class E(Exception):
+    pass
+class I(zope.interface.Interface):
+    a = zope.interface.Attribute("doc")
+    s = zope.schema.TextLine(description="x")
+    def im():
+        pass
+class C:
+    cv = 1
+    def __init__(self):
+        self.iv = 2
+    def m(self):
+        pass
+    @classmethod
+    def cm(cls):
+        pass
+    @staticmethod
+    def sm():
+        pass
+    @property
+    def p(self):
+        return 1
+@attr.s
+class A:
+    x = attr.ib()
+def f():
+    pass
+'''
+
+
+def stream_kinds(ctx: Ctx) -> None:
+    """which `domain:type` the real writer gives each DocumentableKind, against the model's table"""
+    from pydoctor import model, sphinx
+    reqs: List[str] = []
+    impls: List[str] = []
+    pay: List[Any] = []
+    system = model.System()
+    b = system.systemBuilder(system)
+    b.addModuleString("'''pkg'''", "pk", is_package=True)
+    b.addModuleString(KINDS_SRC, "m", parent_name="pk")
+    b.buildModules()
+    w = sphinx.SphinxInventoryWriter(logger=Log(), project_name="p", project_version="1")
+    seen = set()
+    sphinx_types = {"function", "data", "class", "exception", "method", "classmethod", "staticmethod", "attribute", "property", "type", "module"}
+    for o in system.allobjects.values():
+        if o.kind is None:
+            continue
+        line = w._generateLine(o)
+        typ = line.split(" ")[1]
+        seen.add(o.kind.name)
+        req = "inventory role " + o.kind.name
+        reqs.append(req); impls.append(enc(typ)); pay.append({"kind": o.kind.name, "object": o.fullName()})
+        ctx.case(req + " " + o.fullName(), True)
+        ctx.count("kind:" + o.kind.name)
+        if not typ.startswith("py:") or typ[3:] not in sphinx_types or line.split(" ")[2] != "-1" or not line.endswith(" -\n"):
+            ctx.fail("role-not-a-sphinx-type", {"object": o.fullName(), "line": line}, f"{o.kind.name} written as {typ!r}")
+    for k in model.DocumentableKind:
+        if k.name not in seen:
+            ctx.count("kind-not-produced:" + k.name)
+    compare(ctx, "kinds", reqs, impls, pay)
+
+
 def run(ctx: Ctx) -> None:
+    stream_corpus(ctx)
     stream_lines(ctx)
     stream_projects(ctx)
     stream_robust(ctx)
     stream_sequences(ctx)
+    stream_cache(ctx)
+    stream_linker(ctx)
+    stream_kinds(ctx)
 
 
 def replay(ctx: Ctx, obj) -> int:
